@@ -467,6 +467,18 @@ func ruleCtorFlag(w *World, r *Report, pfx string, trig, pred *ssa.Function, opt
 			st := p.storesTo(tBState, "triggerComplete")
 			has := p.hasCmp(-1, token.GTR, isTotal, isConstInt(0))
 			hasNot := p.hasCmp(-1, token.LEQ, isTotal, isConstInt(0))
+			// alternative form: a single unconditional store of the comparison itself
+			if len(st) == 1 {
+				if _, isC := constBool(st[0].Val.V); !isC {
+					c := p.cmpOf(Atom{Cond: st[0].Val, Pol: true})
+					isGT := (c.Op == token.GTR && isTotal(c.X) && isConstInt(0)(c.Y)) || (c.Op == token.LSS && isTotal(c.Y) && isConstInt(0)(c.X))
+					if !isGT {
+						bad = "constructor stores a triggerComplete value other than total > 0"
+					}
+					sawSet, sawUnset = true, true
+					return
+				}
+			}
 			switch {
 			case len(st) == 1:
 				bv, isC := constBool(st[0].Val.V)
